@@ -1,8 +1,8 @@
 #!/usr/bin/env python3
-"""e5dump.py <fn path>: print the E5 effect summary of a function (debugging aid)."""
+"""e6dump.py <fn path>: print the E6 effect summary of a function (debugging aid)."""
 import sys, os
 sys.path.insert(0, os.path.dirname(os.path.dirname(os.path.abspath(__file__))))
-from sa import facts as F, e5
+from sa import facts as F, e6 as e5
 from sa.hir import Crate
 c = Crate(F.get_facts(sys.argv[2] if len(sys.argv) > 2 else '/repo', 'dev', quiet=True))
 fn = c.fn(sys.argv[1])
